@@ -1,6 +1,6 @@
 # Configuration of ./check C14 (see props.d/C06.py for the fields).
 PROP = {
-    "regen_files": ["GenGuards.v", "GenSigs.v"],
+    "regen_files": ["GenGuards.v", "GenSigs.v", "GenHex.v"],
     "num": 14,
     "runs": [
         {"tag": "c14", "bin": "c14"},
@@ -14,7 +14,7 @@ PROP = {
     "nontrivial": lambda case, obs: case.split()[3] != "0" and len(obs.split()) > 1,
     "manifest": {
         "design_ref": "DESIGN.md section 7, C14",
-        "text": "Theorem in Coq about a hub model of src/hex.rs that keeps the crate's constants and arithmetic (max_digits clamp, max_bytes = (d >> 1) + (d & 1), thresholds 16 and 1024, 1024-byte chunks through one reused 2048-byte buffer with the running digits_left): for every byte list of every length, both cases and every precision (none / any usize), the formatter output equals firstn (min p 2N) of the per-byte two-digit string; proved by chunk induction for the third strategy; additionally max_bytes <= N (the unreachable_unchecked is unreachable), every encoder call has 2|src| <= |dst| (unwrap_unchecked never sees Err), digits_left never underflows, only ASCII hex digits reach from_utf8_unchecked, and the result is the same for every encoder satisfying the stated faster_hex contract (feature independence). The hub is tied to /repo by running its OCaml extraction and the real LowerHex/UpperHex impls on the same cases, with the faster-hex feature off and on.",
+        "text": "Theorem in Coq about a hub model of src/hex.rs that keeps the crate's constants and arithmetic (max_digits clamp, max_bytes = (d >> 1) + (d & 1), thresholds 16 and 1024, 1024-byte chunks through one reused 2048-byte buffer with the running digits_left): for every byte list of every length, both cases and every precision (none / any usize), the formatter output equals firstn (min p 2N) of the per-byte two-digit string; proved by chunk induction for the third strategy; additionally max_bytes <= N (the unreachable_unchecked is unreachable), every encoder call has 2|src| <= |dst| (unwrap_unchecked never sees Err), digits_left never underflows, only ASCII hex digits reach from_utf8_unchecked, and the result is the same for every encoder satisfying the stated faster_hex contract (feature independence). The hub is tied to /repo (1) by regeneration: tools/ga2coq translates the body of generic_hex, the two fmt impls and the cfg-selected call of hex_encode on every run (coq/gen/GenHex.v) and Coq proves that the regenerated body, run by the interpreter of HexProg.v, equals the hub function for all encoders, cases, byte lists and precisions (C14_source_generic_hex), so the theorems hold of the source text as it stands; (2) by running its OCaml extraction and the real LowerHex/UpperHex impls on the same cases, with the faster-hex feature off and on.",
         "technique": "machine-checked proof in Coq (induction over chunks) + extracted-model vs implementation differential correspondence under both feature configurations",
     },
 }
